@@ -1,6 +1,6 @@
 #!/bin/bash
 # tools/seeddemo.sh <ID> — confirm a seed's demonstration in its scratch worktree /tmp/seed-<ID>-wt: passes clean, fails patched.
-ID=$1; wt=/tmp/seed-$ID-wt; out=/tmp/seed-$ID-out
+ID=$1; R=${SEED_ROUND:-}; wt=/tmp/seed$R-$ID-wt; out=/tmp/seed$R-$ID-out
 export GOFLAGS=-mod=mod GOPROXY=off
 git -C $wt checkout -q -- . ; git -C $wt status --short | head -3
 run() { (cd $out/demo && if ls *_test.go >/dev/null 2>&1; then go test -count=1 ./... 2>&1 | tail -3; else go run . 2>&1 | tail -3; fi; echo "demo-exit=${PIPESTATUS[0]}"); }
